@@ -83,6 +83,16 @@ def sel_of(words):
     return zlib.crc32(" ".join(words).encode())
 
 
+def roundtrip(o, sel):
+    """pickle round trip (protocols 2..5; 0 and 1 are documented as unsupported in odicting.TestPickle),
+    copy.copy or copy.deepcopy"""
+    import copy
+    k = sel % 6
+    if k < 4:
+        return pickle.loads(pickle.dumps(o, 2 + k))
+    return copy.copy(o) if k == 4 else copy.deepcopy(o)
+
+
 # ------------------------------------------------------------------ implementation adapters
 class BadOp(Exception):
     pass
@@ -177,6 +187,11 @@ def d_exec(objs, w):
         c = o.copy()
         if type(c) is not type(o) or c is o:
             return "?copy type/identity"
+        objs.append(c); return "ref %d" % (len(objs) - 1)
+    if op == "pickle":
+        c = roundtrip(o, sel_of(w + [str(len(objs))]))
+        if type(c) is not type(o) or c is o:
+            return "?pickle type/identity"
         objs.append(c); return "ref %d" % (len(objs) - 1)
     if op == "createp":
         a, kw = arg_forms(cpairs(w[2]), sel_of(w))
@@ -289,6 +304,11 @@ def m_exec(objs, w):
         if type(c) is not modict or c is o:
             return "?copy type/identity"
         objs.append(c); return "ref %d" % (len(objs) - 1)
+    if op == "pickle":
+        c = roundtrip(o, sel_of(w + [str(len(objs))]))
+        if type(c) is not modict or c is o:
+            return "?pickle type/identity"
+        objs.append(c); return "ref %d" % (len(objs) - 1)
     if op == "get":
         kw = {} if w[4] == "-1" and sel_of(w) % 2 else {"index": int(w[4])}
         f = o.get if sel_of(w) % 3 else o.getone
@@ -373,6 +393,8 @@ def s_exec(objs, w):
         objs.append(r); return "ref %d" % (len(objs) - 1)
     if op == "add":
         o.add(w[2]); return "None"
+    if op == "pickle":
+        return newobj(roundtrip(o, sel_of(w + [str(len(objs))])))
     if op == "discard":
         o.discard(w[2]); return "None"
     if op == "remove":
@@ -541,7 +563,7 @@ def ref_d(ops):
                     o.set(w[2], int(w[3]))
                 elif op == "clear":
                     o.it = []
-                elif op == "copy":
+                elif op in ("copy", "pickle"):
                     r = new(RefD(o.low, o.items()))
                 elif op in ("createp", "create"):
                     ps = cpairs(w[2]) if op == "createp" else obj(objs, w[2]).items()
@@ -661,7 +683,7 @@ def ref_m(ops):
                     r = "lit " + flpairs(o)
                 elif op == "allitems":
                     r = "it " + fpairs((k, v) for k, l in o for v in l)
-                elif op == "copy":
+                elif op in ("copy", "pickle"):
                     r = new([[k, list(l)] for k, l in o])
                 elif op == "get":
                     v = None if w[3] == "~" else int(w[3])
@@ -777,6 +799,9 @@ def ref_s_apply(st, w):
             r = "k " + sep(o)
         elif op == "rev":
             r = "k " + sep(o[::-1])
+        elif op == "pickle":
+            s2 = copy.deepcopy(st); s2.append(list(o))
+            return [("ref %d | %s" % (len(s2) - 1, dump(s2)), s2)]
         elif op in ("or", "and", "sub", "rsub", "xor"):
             a, _ = arg(w[2]); a = list(a)
             if op == "or": res = [uniq(o + a)]
@@ -850,7 +875,7 @@ def gen_d(rng, n_ops, keys=DKEYS):
         elif c < 11: ops.append([rng.choice(["len", "keys", "values", "items"]), oi()])
         elif c < 13: ops.append(["append", oi(), key(), val()])
         elif c < 14: ops.append(["clear", oi()] if rng.random() < 0.3 else ["reorderbad", oi()])
-        elif c < 16 and n < 6: ops.append(["copy", oi()]); n += 1
+        elif c < 16 and n < 6: ops.append([rng.choice(["copy", "copy", "pickle"]), oi()]); n += 1
         elif c < 18: ops.append(["createp", oi(), rpairs(rng, keys)])
         elif c < 20 and n < 6:
             ops.append(["sift", oi(), rng.choice(["~", sep(rng.choice(keys) for _ in range(rng.randrange(0, 4)))])]); n += 1
@@ -883,7 +908,7 @@ def gen_m(rng, n_ops, keys=MKEYS):
         elif c < 10: ops.append(["del", oi(), key()])
         elif c < 12: ops.append([rng.choice(["len", "keys", "values", "listvalues", "allvalues", "items", "listitems", "allitems"]), oi()])
         elif c < 13: ops.append(["clear", oi()] if rng.random() < 0.3 else ["getlist", oi(), key()])
-        elif c < 15 and n < 5: ops.append(["copy", oi()]); n += 1
+        elif c < 15 and n < 5: ops.append([rng.choice(["copy", "pickle"]), oi()]); n += 1
         elif c < 18: ops.append(["get", oi(), key(), optv(), idx()])
         elif c < 20: ops.append(["replace", oi(), key(), val()])
         elif c < 22: ops.append(["setdefault", oi(), key(), val()])
@@ -916,7 +941,8 @@ def gen_s(rng, n_ops, keys=SKEYS):
         elif c < 13: ops.append(["pop", oi(), rng.choice(["0", "1"])])
         elif c < 14: ops.append(["clear", oi()] if rng.random() < 0.3 else ["has", oi(), key()])
         elif c < 15: ops.append([rng.choice(["len", "iter", "rev"]), oi()])
-        elif c < 25 and n < 7: ops.append([rng.choice(["or", "and", "sub", "rsub", "xor"]), oi(), arg()]); n += 1
+        elif c < 24 and n < 7: ops.append([rng.choice(["or", "and", "sub", "rsub", "xor"]), oi(), arg()]); n += 1
+        elif c < 25 and n < 7: ops.append(["pickle", oi()]); n += 1
         elif c < 33: ops.append([rng.choice(["ior", "iand", "ixor", "isub"]), oi(), arg()])
         elif c < 34: ops.append(["disjoint", oi(), arg()])
         elif c < 36: ops.append([rng.choice(["le", "lt", "ge", "gt"]), oi(), oi()])
@@ -925,15 +951,15 @@ def gen_s(rng, n_ops, keys=SKEYS):
     return {"kind": "s", "ops": ops}
 
 
-ALLOC = {"d": {"new", "newfrom", "copy", "sift"}, "m": {"new", "newfrom", "copy", "fromkeys"},
-         "s": {"new", "or", "and", "sub", "rsub", "xor"}}
+ALLOC = {"d": {"new", "newfrom", "copy", "sift", "pickle"}, "m": {"new", "newfrom", "copy", "fromkeys", "pickle"},
+         "s": {"new", "or", "and", "sub", "rsub", "xor", "pickle"}}
 
 
 class CHECK(core.Check):
     PROPERTY = "C39"
     LEAN_MODULES = ["IofloModel.Props.C39"]
     ENGINE = "containers"
-    N_QUICK = 900
+    N_QUICK = 600
     N_THOROUGH = 30000
     N_SEARCH = 3000
     RULE = ("operation sequences (1..30 calls, up to 6 live objects) on odict+lodict / modict / oset over small key "
@@ -947,13 +973,41 @@ class CHECK(core.Check):
                "CPython dict/list semantics (dict.update on a dict subclass that overrides __iter__, list.insert "
                "index clamping, collections.abc.MutableSet mixins) as transcribed in Model/Containers.lean",
                "keys are ASCII alphanumeric strings (str.lower = ASCII lower), values are ints"]
-    PARTIAL = ["pickle round trips are exercised against the reference (stage B oracle), not modelled in Lean",
-               "oset: the doubly linked list + map are modelled as the list of keys in link order",
+    PARTIAL = ["C39_lodict_* are proved for any idempotent `lower`; for the driver's keys (ASCII) C39_lowerStr_idempotent "
+               "discharges it; Unicode case mapping of str.lower is not modelled",
+               "pickle / copy.copy / copy.deepcopy round trips are compared with the model's copy() (reconstruction from "
+               "items()); pickle itself (protocol machinery, protocols 0 and 1 which odicting documents as unsupported) is "
+               "not modelled",
+               "oset: the doubly linked list + map are modelled as the list of keys in link order; the pointer "
+               "manipulation of add/discard is tied to the model only by the correspondence runs",
                "modict.update(itself) never returns (appends to the lists it iterates): excluded from the generated calls",
-               "lodict/modict setdefault/get `kind=` casts, non-string lodict keys, unhashable keys: not generated"]
+               "modict's inherited insert/reorder/sift(fields) store bare values instead of lists (broken for modict): "
+               "not in the modelled call alphabet",
+               "lodict/modict setdefault/get `kind=` casts, non-string lodict keys, unhashable keys, dict methods "
+               "inherited from Python >= 3.8 (reversed(), |, |=) : not modelled",
+               "lodict == other compares raw keys (inherited dict.__eq__): modelled as such, not claimed case-insensitive"]
     TECHNIQUE = "Lean 4 theorems (invariants + refinement by induction over call histories) + differential correspondence"
-    LEVEL_TEXT = ""
-    LEVEL_NOTE = ""
+    LEVEL_TEXT = ("Full proofs on the model (no _partial theorem). odict: the transcribed two-structure implementation (dict part + "
+                  "_keys list) refines a one-list reference ordered dictionary for every call and every history "
+                  "(C39_odict_refines_ordered_map, C39_odict_history, C39_odict_observed), incl. insert, reorder, create, sift, pop, "
+                  "popitem, setdefault, update, copy, ==; laws of the reference that are not definitional (C39_reorder_law, "
+                  "C39_update_law). lodict: every call depends only on the lower-cased keys (C39_lodict_case_insensitive, any state) "
+                  "and equals the reference call on lower-cased keys, keys stay lower case (C39_lodict_refines_lowered_map, "
+                  "C39_lodict_history, C39_lowerStr_idempotent). modict: refines the reference multi-dictionary, no empty value list "
+                  "ever, every stored value kept in order and m[k] the newest (C39_modict_refines_multimap, C39_modict_history, "
+                  "C39_modict_keeps_all_returns_newest). oset: add/discard loops and the MutableSet mixins equal the filter-based "
+                  "reference ordered set, never a duplicate, membership of | & - ^ (C39_oset_refines_ordered_set, C39_oset_history, "
+                  "C39_oset_nodup, C39_oset_algebra_membership). Several live objects with by-reference arguments and aliasing: all "
+                  "stay well formed, a call changes only its receiver, copies are equal and independent (C39_heap_invariant, "
+                  "C39_heap_history_invariant, C39_heap_frame, C39_copy_equal_independent). The model is of /repo + fixes D23 (x3), "
+                  "D39a-d and is tied to the code by running the same call sequences on the real objects.")
+    LEVEL_NOTE = ("Trusted: Lean kernel; axioms propext, Classical.choice, Quot.sound; the hand transcription of odicting.py / "
+                  "osetting.py and of CPython's dict/list/MutableSet behaviour it relies on (Model/Containers.lean), validated only by "
+                  "the correspondence runs (random sequences up to 30 calls on up to 6-7 live objects + all sequences of <= 2 (quick) / "
+                  "<= 3 (thorough) calls from reduced alphabets); the reference containers of Model/ContainersSpec.lean as the meaning "
+                  "of 'insertion-ordered dictionary / multi-dictionary / set' (an intersection is ordered by its second operand, as "
+                  "collections.abc.Set.__and__ does; the Python oracle accepts either operand's order); keys ASCII alphanumeric, "
+                  "values ints; oset modelled as a list, not as the linked structure.")
 
     # ---- cases
     def generate(self, rng, n, tier):
@@ -976,10 +1030,11 @@ class CHECK(core.Check):
             alpha += [["set", i, "A", "5"], ["del", i, "A"], ["insert", i, "0", "A", "6"], ["insert", i, "-1", "c", "6"],
                       ["pop", i, "A", "~"], ["pop", i, "a", "7"], ["popitem", i], ["createp", i, "A=8,c=9"],
                       ["updatep", i, "c=3,A=4"], ["setdefault", i, "B", "0"], ["sift", i, "A"], ["append", i, "A", "1"],
-                      ["reorder", i, "0"], ["reorder", i, "1"], ["copy", i], ["getitem", i, "A"], ["has", i, "B"]]
+                      ["reorder", i, "0"], ["reorder", i, "1"], ["copy", i], ["pickle", i], ["getitem", i, "A"],
+                      ["has", i, "B"]]
         for d in range(1, depth + 1):
             if d == 3:
-                sub = [a for a in alpha if a[0] not in ("getitem", "has", "copy", "sift")]
+                sub = [a for a in alpha if a[0] not in ("getitem", "has", "copy", "sift", "pickle")]
             else:
                 sub = alpha
             for seq in itertools.product(sub, repeat=d):
@@ -989,7 +1044,7 @@ class CHECK(core.Check):
                   ["pop", "0", "a", "~", "0"], ["pop", "0", "c", "7", "-1"], ["poplist", "0", "b", "~"],
                   ["popitem", "0", "0", "-1"], ["popitem", "0", "1", "0"], ["poplistitem", "0", "0"],
                   ["setdefault", "0", "a", "5"], ["setdefault", "0", "c", "5"], ["get", "0", "a", "~", "-1"],
-                  ["get", "0", "a", "8", "2"], ["update", "0", "b=1,c=2,b=3"], ["create", "0", "a=1,c=2"], ["copy", "0"],
+                  ["get", "0", "a", "8", "2"], ["update", "0", "b=1,c=2,b=3"], ["create", "0", "a=1,c=2"], ["copy", "0"], ["pickle", "0"],
                   ["getitem", "0", "a"], ["allitems", "0"]]
         for d in range(1, depth + 1):
             for seq in itertools.product(alpham, repeat=d):
